@@ -10,9 +10,15 @@ for d in seeded/*/; do
   [ -f $d/patch.diff ] || continue
   grep -q '"superseded"' $d/meta.json && { echo "$name superseded"; continue; }
   scr=/tmp/seedmx-$$
-  git -C /repo worktree add --detach $scr HEAD -q || exit 2
-  if ! ( cd $scr && git apply /verif/$d/patch.diff ); then echo "$name PATCH-DOES-NOT-APPLY"; git -C /repo worktree remove --force $scr; continue; fi
-  line="$name"
+  # the patch was written against the HEAD of its day: use the newest commit it still applies to
+  base=""
+  for c in $(git -C /repo log --format=%h -n 40); do
+    git -C /repo worktree add --detach $scr $c -q || exit 2
+    if ( cd $scr && git apply /verif/$d/patch.diff 2>/dev/null ); then base=$c; break; fi
+    git -C /repo worktree remove --force $scr
+  done
+  if [ -z "$base" ]; then echo "$name PATCH-DOES-NOT-APPLY"; continue; fi
+  line="$name base=$base"
   for s in $seeds; do
     VERIF_SEED=$s VERIF_REPO=$scr ./check $id > /tmp/seedmx-$$.log 2>&1; rc=$?
     case $rc in 1) r=caught;; 0) r=MISSED;; *) r=inconclusive;; esac
